@@ -146,3 +146,12 @@ claim("C10",
       "every string, value correctness and the round trip are not decided.",
       "Trusted: analysis/sym.py; analysis/abs*.py; specs/justifications.txt; the ABNF transcription in DESIGN appendix A.5.",
       "DESIGN.md 5/C10")
+claim("C11",
+      "table extraction of the obsolete zone names against RFC 2822 section 4.3, acceptance boxes of the year-length rule, reader width table, writer skeleton/indexing rules, interval abstract interpretation",
+      "NARROW claim. Decides: the reader's zone-name table (UT, GMT, Z, EST..PDT with their offsets, military letters except J as +0000, nothing else) equals the RFC's; "
+      "two-digit years pivot at 50 and three-digit years add 1900; day 1-2 digits, year >= 2 digits, hh/mm/ss exactly 2; the writer emits `Www, D Mon YYYY HH:MM:SS +HHMM` "
+      "indexing the Sunday-first weekday table and the month table correctly with offset format {minutes, no colon, no Z, zero-padded}; a contradicting weekday reaches the "
+      "resolution checks (C14); no panic, lossy cast or out-of-range digit in reader, comment scanner, writer and offset writer. Optional parts, comments, white-space runs "
+      "and returned values (the round trip) are not decided.",
+      "Trusted: the RFC 2822 section 4.3 transcription in analysis/props/c11.py; analysis/sym.py; analysis/abs*.py; specs/justifications.txt.",
+      "DESIGN.md 5/C11, appendix A.4")
